@@ -19,6 +19,7 @@
 #include "common.h"
 #include <stdint.h>
 #include <dbus/dbus-object-tree.h>
+#include <dbus/dbus-syntax.h>
 
 #define IFACE "com.example.Verif"
 #define MAXLOG 512
@@ -504,6 +505,34 @@ static void run_history (int conn_mode, char *rest)
   putchar ('\n');
 }
 
+/* P <hex>: _dbus_decompose_path on the raw bytes (only called with strings on which it does not assert);
+ * second field: what a message carrying this PATH decomposes to (dbus_message_get_path_decomposed), if it
+ * is a valid object path */
+static void run_decompose (const char *hex)
+{
+  int n, i, count = -1; unsigned char *b = unhex (hex, &n);
+  char **dec = NULL;
+  if (!_dbus_decompose_path ((const char *) b, n, &dec, &count)) abort ();
+  printf ("%d:", count);
+  if (count == 0) putchar ('-');
+  for (i = 0; i < count; i++) { if (i) putchar (','); puthex ((const unsigned char *) dec[i], (int) strlen (dec[i])); }
+  if (dec[count] != NULL) printf ("!unterminated");
+  dbus_free_string_array (dec);
+  if (!has_nul (b, n) && n > 0 && dbus_validate_path ((const char *) b, NULL))
+    {
+      DBusMessage *m = dbus_message_new_method_call (NULL, (const char *) b, NULL, "X");
+      char **d2 = NULL;
+      if (m == NULL || !dbus_message_get_path_decomposed (m, &d2)) abort ();
+      printf (" msg=");
+      for (i = 0; d2[i] != NULL; i++) { if (i) putchar (','); puthex ((const unsigned char *) d2[i], (int) strlen (d2[i])); }
+      if (i == 0) putchar ('-');
+      dbus_free_string_array (d2);
+      dbus_message_unref (m);
+    }
+  putchar ('\n');
+  free (b);
+}
+
 int main (void)
 {
   char *line = NULL; size_t cap = 0; ssize_t got;
@@ -522,6 +551,7 @@ int main (void)
           run_history (1, rest);
         }
       else if (!strcmp (line, "t")) run_history (0, rest);
+      else if (!strcmp (line, "P")) run_decompose (rest[0] ? rest : "-");
       else if (line[0] == 0) printf ("\n");
       else printf ("?unknown-command\n");
       fflush (stdout);
